@@ -45,6 +45,9 @@ def gen_cases_for(seed_, n):
         spec = []
         for k in keys[:nf]:
             spec.append((k, rng.choice(PATHS).split("."), rng.choice(reg)))
+        twin_spec = None
+        if rng.random() < 0.35:
+            twin_spec = [(k, path, rng.choice([t for t in reg if t != P] or [P])) for k, path, P in spec]
         samples = []
         for s in range(rng.randint(1, 4)):
             o = {}
@@ -59,6 +62,9 @@ def gen_cases_for(seed_, n):
             o[keys[nf]] = rng.choice([1, 2.5, True, "plain text", ["a", "b"], {"inner": "1", "n": 2}, None, [1, "x"], ["1", "x"]])
             if rng.random() < 0.5:
                 o[keys[nf + 1]] = rng.choice(["1", "x"]) if rng.random() < 0.5 else {"sub": value_for(["L", "S"], rng.choice(reg), rng), "t": "s"}
+            if twin_spec:
+                # a nested model whose fields have the same names and container paths as the root's but another pseudo-type
+                o["twin"] = {k: value_for(path, P2, rng, allow_empty=False) for k, path, P2 in twin_spec}
             samples.append(o)
         fw = rng.choice(["attrs", "dataclasses"])
         conv = rng.random() < 0.7
